@@ -403,7 +403,11 @@ fn decorrelate_in_subquery(
     // Build join conditions
     let join_on = build_join_conditions(&correlation_predicates, outer, &decorrelated_subquery)?;
 
-    if join_on.is_empty() {
+    // build_join_conditions skips a predicate it cannot express (non-equality,
+    // or an inner column the subquery does not project). The correlation
+    // filter has already been removed from `decorrelated_subquery`, so going
+    // on would silently drop the correlation: give up instead.
+    if join_on.is_empty() || join_on.len() != correlation_predicates.len() {
         return Ok(None);
     }
 
